@@ -141,3 +141,101 @@ func TestC08Conn(t *testing.T) {
 		st.Case(key, nInv > 0 && nPing > 0, key, fmt.Sprintf("waves=%d", waves))
 	})
 }
+
+// C08 (c): retransmissions whose write fails. Requests are issued one after the
+// other (a single writer at any time); the peer answers nothing, so every
+// request is transmitted again after the retry interval; for drawn requests the
+// link stops draining before that retransmission, which then fails at the
+// request's deadline without having transferred anything. Every content
+// message has been on the wire once, so the numbering the peer sees must be
+// exactly the specification's, failed retransmissions or not.
+func TestC08Resend(t *testing.T) {
+	st := pbt.NewStats("TestC08Resend")
+	defer st.Flush()
+	rapid.Check(t, func(t *rapid.T) {
+		rnd, seed := pbt.DrawStream(t, "rnd")
+		nops := rapid.IntRange(2, 8).Draw(t, "nops")
+		ops := make([]string, nops)
+		failing := 0
+		for i := range ops {
+			ops[i] = rapid.SampledFrom([]string{"invoke", "invoke-resend-fails", "invoke-resend-fails", "ping"}).Draw(t, "op")
+			if ops[i] == "invoke-resend-fails" {
+				failing++
+			}
+		}
+		rapid.SyncTest(t, func(t *rapid.T) {
+			key := drawKey(rnd)
+			f := startConn(t, key, rnd, mtproto.Options{PingInterval: 24 * time.Hour, PingTimeout: time.Hour,
+				RetryInterval: time.Second, MaxRetries: 10, CompressThreshold: -1}, nil)
+			for i, op := range ops {
+				switch op {
+				case "ping":
+					ctx, cancel := context.WithTimeout(context.Background(), 100*time.Millisecond)
+					_ = f.conn.Ping(ctx)
+					cancel()
+				default:
+					ctx, cancel := context.WithTimeout(context.Background(), 2500*time.Millisecond)
+					done := make(chan struct{})
+					go func() {
+						var out []byte
+						_ = f.conn.Invoke(ctx, rawEnc(reqBody(uint64(i), 12)), rawDec{&out})
+						close(done)
+					}()
+					synctest.Wait() // first transmission is on the wire
+					if op == "invoke-resend-fails" {
+						time.Sleep(500 * time.Millisecond)
+						f.gate.StallWrites() // the retransmission at 1 s blocks and fails at 2.5 s
+					}
+					<-done
+					f.gate.ResumeWrites()
+					cancel()
+				}
+				synctest.Wait()
+			}
+			msgs := f.peer.Msgs()
+			f.stop(t)
+			type m struct {
+				id   int64
+				seq  int32
+				body []byte
+			}
+			byID := map[int64]m{}
+			var list []m
+			for _, x := range msgs {
+				if x.TypeID == pbt.IDMsgContainer {
+					continue
+				}
+				if prev, ok := byID[x.MsgID]; ok {
+					if prev.seq != x.SeqNo || !bytes.Equal(prev.body, x.Body) {
+						t.Fatalf("two different messages share msg_id %#x (seq %d/%d)", x.MsgID, prev.seq, x.SeqNo)
+					}
+					continue
+				}
+				mm := m{x.MsgID, x.SeqNo, x.Body}
+				byID[x.MsgID] = mm
+				list = append(list, mm)
+			}
+			sort.Slice(list, func(i, j int) bool { return list[i].id < list[j].id })
+			content := int32(0)
+			for i, x := range list {
+				// content-related messages here are the requests and the rpc_drop_answer
+				// the client sends when a request's deadline passes; the parity of the
+				// number tells which kind the client meant (TestC08Conn checks the parity
+				// against the message type)
+				isContent := x.seq%2 == 1
+				want := 2 * content
+				if isContent {
+					want++
+				}
+				if x.seq != want {
+					t.Fatalf("C08 violated: message %d in msg_id order (id %#x, type %#x): seq_no %d, want %d (%d content messages before it); operations %v", i, x.id, binary.LittleEndian.Uint32(x.body), x.seq, want, content, ops)
+				}
+				if isContent {
+					content++
+				}
+			}
+		})
+		key := fmt.Sprintf("seed=%d ops=%v", seed, ops)
+		st.Case(key, failing > 0, key, fmt.Sprintf("failing-resends=%d", failing))
+	})
+}
